@@ -52,7 +52,7 @@ def run(ctx):
                 workers=1, timeout=1500)
         if r["ok"]:
             break
-        m = re.search(r'"EDIT_MISMATCH_AT_LINE", (\d+), "PREDICTED", (\d+)',
+        m = re.search(r'"EDIT_MISMATCH_AT_LINE"\s*,\s*(\d+)\s*,\s*"PREDICTED"\s*,\s*(\d+)',
                       r["out"])
         if not m:
             raise Infra("Trace_Edit failed:\n" + r["out"][-2000:])
